@@ -2,14 +2,41 @@
    FULL STATEMENT (decidable, Spec/C03_spec.v): for every history of membership operations,
    C03_ok pre res post = true at every step, i.e. seat_inv holds after the step and a refused
    operation leaves book_eqb pre post.
-   Proved here: the all-or-nothing clause for every operation of the model, with one exclusion
-   that is a recorded finding (F19, witness below).  NOT yet proved in Coq (named _partial): that
-   seat_inv is preserved by every operation - this clause is decided on every run by evaluating
-   seat_inv on each observed implementation state and by the model/implementation correspondence. *)
+   Proved here, for tables of every size and histories of every length:
+   (1) seat_inv is preserved by every membership operation (Proofs/C03_inv.v), hence holds after every
+       history from a new table - under the one premise that the seats the seat manager draws at random
+       for newcomers are distinct empty seats of the table (draws_ok_op: the draw is an oracle argument of
+       the model; the premise is evaluated on every observed operation by the correspondence run);
+   (2) the all-or-nothing clause for every operation, with one exclusion that is a recorded finding
+       (F19, witness below) - hence the name _partial for that clause. *)
 From Coq Require Import List ZArith Bool Arith.
 Import ListNotations.
-From PT Require Import Model.TableMem Spec.C03_spec Proofs.C03_proofs.
+From PT Require Import Model.TableMem Spec.C03_spec Proofs.C03_proofs Proofs.C03_inv.
 Open Scope Z_scope.
+
+(* one operation: exclusivity and consistency survive it, whether it is accepted or refused *)
+Theorem C03_invariant_preserved : forall t o r t',
+  seat_inv t = true -> draws_ok_op t o = true -> mstep t o = (r, t') -> seat_inv t' = true.
+Proof. intros t o r t' H D E. apply Inv_seat_inv. exact (mstep_inv t o r t' (seat_inv_Inv t H) D E). Qed.
+Print Assumptions C03_invariant_preserved.
+
+(* every history, from a new table of any size and rule *)
+Theorem C03_invariant_every_history : forall max rule ops,
+  let t0 := {| t_max := max; t_seatmap := repeat (-1) max; t_players := []; t_gpi := []; t_status := SCreated; t_sm := new_sm max rule |} in
+  draws_ok_all t0 ops = true -> seat_inv (run_ops t0 ops) = true.
+Proof. intros max rule ops t0 D. exact (seat_inv_every_history ops t0 (new_table_inv max rule) D). Qed.
+Print Assumptions C03_invariant_every_history.
+
+(* the premise on the draws is satisfiable and not idle: a history with random seats *)
+Example C03_draws_example :
+  let t0 := {| t_max := 4; t_seatmap := repeat (-1) 4; t_players := []; t_gpi := []; t_status := SCreated; t_sm := new_sm 4 RDefault |} in
+  let ops := [MReserve {| jp_id := 1; jp_chips := 100; jp_seat := -1 |} [2];
+              MUpdate [{| jp_id := 2; jp_chips := 10; jp_seat := 0 |}; {| jp_id := 3; jp_chips := 10; jp_seat := -1 |}] [3] [];
+              MJoin 1; MLeave [2%nat];
+              MUpdate [{| jp_id := 4; jp_chips := 10; jp_seat := -1 |}] [0] [1%nat]] in
+  draws_ok_all t0 ops = true /\ length (t_players (run_ops t0 ops)) = 2%nat
+  /\ draws_ok_op t0 (MReserve {| jp_id := 1; jp_chips := 100; jp_seat := -1 |} [7]) = false.
+Proof. vm_compute. repeat split; reflexivity. Qed.
 
 Theorem C03_error_is_noop_partial : forall t o t',
   atomic_op t o -> mstep t o = (Err, t') -> book_eqb t t' = true.
